@@ -345,6 +345,23 @@ UNITS += [
 ]
 
 UNITS += [
+    # copy: the walk that collects the blobs to copy starts from the root trees of ALL copied snapshots
+    Unit(name="copy_walk", file=CPYF, kind="block", within="pub(crate) fn copy<'a, R: IndexedFull, S: IndexedIds>(",
+         anchor="let mut tree_streamer = TreeStreamerOnce::new(", block_end="let indexer = Indexer::new(be_dest.clone()).into_shared();",
+         block_sig="fn copy_walk(be: &VBeCW, index: &VSrcIndexCW, snap_trees: Vec<TreeIdC>, p: ProgressCW, data_ids: &mut VIdSet<DataIdC>, tree_ids: &mut VIdSet<TreeIdC>, index_dest: &VDestIndex) -> (r: RusticResult<()>)",
+         block_tail="    Ok(())",
+         functions=["commands::copy::copy (the walk over the trees of the copied snapshots)"],
+         rewrites=[
+             Rw(r"TreeStreamerOnce::new\(be, index, (?P<r>[\w.():]+), p\)\?", r"VTreeWalkC::vnew(be, index, \g<r>, p, Ghost(snap_trees@))?", regex=True, why="TreeStreamerOnce (threads) -> stub: REQUIRES the roots of all copied snapshots"),
+             Rw("tree_streamer.next().transpose()", "vtranspose_c(tree_streamer.next())", why="Option<Result>::transpose -> helper (definition)", optional=True),
+             Rw(r"(?s)for node in tree\.nodes \{.*?\n        \}\n(?=    \})", "vcollect_nodes(tree, data_ids, tree_ids, index_dest);\n", regex=True, why="ELIDED here: the per-tree loop over the nodes (it is the unit copy_collect_nodes)"),
+         ],
+         contract="\n    // (implicit obligation: the precondition of the walk -- it starts from the root trees of all copied snapshots)\n",
+         loops={1: "\n        invariant true,\n        decreases tree_streamer.left@,\n"},
+         ),
+]
+
+UNITS += [
     # the fill phase in front of the merge loop: the head of every non-empty input goes into the heap under ITS input's number
     Unit(name="merge_fill_heap", file=TR, kind="block", within="pub(crate) fn merge_trees(",
          anchor="let mut elems = BinaryHeap::new();", block_end="let mut tree = Tree::new();",
